@@ -8,36 +8,8 @@ import (
 	"testing"
 )
 
-func TestVerifExplore(t *testing.T) {
-	lit := func(v uint64) amlExpr { return amlExpr{K: "data", Data: &amlData{K: "byte", V: v}} }
-	loc := func(n int) *amlExpr { return &amlExpr{K: "local", N: n} }
-	prog := []amlObj{
-		{K: "name", Name: amlSeg("PKG0"), Data: &amlData{K: "package", Elems: []amlData{{K: "byte", V: 7}, {K: "string", S: []byte("hi")}, {K: "package", Elems: []amlData{{K: "one"}}}, {K: "buffer", V: 3, S: []byte{1, 2}}}}},
-		{K: "scope", Name: amlName{Root: true, Segs: []string{"_SB_"}}, Body: []amlObj{
-			{K: "device", Name: amlSeg("DEV0"), Body: []amlObj{
-				{K: "name", Name: amlSeg("NAM0"), Data: &amlData{K: "buffer", V: 4, S: []byte{9, 8}}},
-				{K: "method", Name: amlSeg("MTH0"), Argc: 2, Flags: 8, Stmts: []amlStmt{
-					{K: "store", E: &amlExpr{K: "binop", Op: "add", Args: []amlExpr{{K: "arg", N: 0}, lit(3)}}, T: loc(0)},
-					{K: "if", E: &amlExpr{K: "cmp", Op: "lless", Args: []amlExpr{{K: "local", N: 0}, lit(5)}}, Body: []amlStmt{{K: "inc", T: loc(0)}}, Has: true, Else: []amlStmt{{K: "return", E: &amlExpr{K: "call", Name: "MTH1", Args: []amlExpr{{K: "call", Name: "MTH2", Args: []amlExpr{lit(1)}}, {K: "ref", Name: "NAM0"}}}}}},
-					{K: "while", E: &amlExpr{K: "cmp", Op: "lless", Args: []amlExpr{{K: "local", N: 0}, lit(9)}}, Body: []amlStmt{{K: "expr", E: &amlExpr{K: "binop", Op: "add", Args: []amlExpr{{K: "local", N: 0}, {K: "call", Name: "MTH2", Args: []amlExpr{lit(2)}}}, Target: loc(0)}}}},
-					{K: "expr", E: &amlExpr{K: "call", Name: "MTH2", Args: []amlExpr{lit(4)}}},
-					{K: "return", E: &amlExpr{K: "local", N: 0}},
-				}},
-				{K: "method", Name: amlSeg("MTH1"), Argc: 2, Stmts: []amlStmt{{K: "return", E: &amlExpr{K: "arg", N: 1}}}},
-				{K: "opregion", Name: amlSeg("REG0"), Space: 1, OffK: "word", Offset: 0x3000, LenK: "byte", Len: 4},
-				{K: "field", Region: amlSeg("REG0"), Flags: 0x21, Elems: []amlFieldElem{{K: "named", Name: "FLD0", Bits: 8}, {K: "reserved", Bits: 4}, {K: "access", Type: 2, Attrib: 0}, {K: "named", Name: "FLD1", Bits: 300}}},
-				{K: "mutex", Name: amlSeg("MTX0"), Flags: 3},
-				{K: "event", Name: amlSeg("EVT0")},
-				{K: "processor", Name: amlSeg("CPU0"), ProcID: 1, PblkAddr: 0x120, PblkLen: 6},
-				{K: "power", Name: amlSeg("PWR0"), SysLevel: 2, ResOrder: 0x1234, Body: []amlObj{{K: "name", Name: amlSeg("PWN0"), Data: &amlData{K: "zero"}}}},
-				{K: "indexfield", Region: amlSeg("FLD0"), DataN: amlSeg("FLD1"), Flags: 1, Elems: []amlFieldElem{{K: "named", Name: "IDX0", Bits: 8}}},
-			}},
-		}},
-		{K: "method", Name: amlSeg("MTH2"), Argc: 1, Stmts: []amlStmt{{K: "return", E: &amlExpr{K: "arg", N: 0}}}},
-		{K: "thermal", Name: amlName{Root: true, Segs: []string{"_TZ_", "THM0"}}, Body: []amlObj{{K: "name", Name: amlName{Carets: 0, Segs: []string{"TMP0"}}, Data: &amlData{K: "qword", V: 1 << 40}}}},
-	}
-	buf, hdr := amlTable("DSDT", amlEncodeObjs(prog))
-	_ = buf
+func exploreDump(prog []amlObj) {
+	_, hdr := amlTable("DSDT", amlEncodeObjs(prog))
 	tree := NewObjectTree()
 	tree.CreateDefaultScopes(42)
 	var errs bytes.Buffer
@@ -46,4 +18,23 @@ func TestVerifExplore(t *testing.T) {
 	var out bytes.Buffer
 	tree.PrettyPrint(&out)
 	fmt.Println(out.String())
+}
+
+func TestVerifExplore(t *testing.T) {
+	lit := func(v uint64) amlExpr { return amlExpr{K: "data", Data: &amlData{K: "byte", V: v}} }
+	loc := func(n int) *amlExpr { return &amlExpr{K: "local", N: n} }
+	_ = loc
+	z := amlExpr{K: "data", Data: &amlData{K: "zero"}}
+	prog := []amlObj{
+		{K: "method", Name: amlSeg("AAAK"), Argc: 3, Stmts: []amlStmt{
+			{K: "while", E: &amlExpr{K: "cmp", Op: "lequal", Args: []amlExpr{{K: "local", N: 0}, lit(9)}}, Body: []amlStmt{
+				{K: "expr", E: &amlExpr{K: "call", Name: "AAAK", Args: []amlExpr{{K: "call", Name: "AACC", Args: []amlExpr{{K: "local", N: 0}, z}}, {K: "call", Name: "AACC", Args: []amlExpr{z, z}}, z}}},
+				{K: "store", E: &z, T: loc(0)},
+				{K: "if", E: &amlExpr{K: "cmp", Op: "lequal", Args: []amlExpr{z, z}}, Body: []amlStmt{{K: "inc", T: loc(0)}}},
+				{K: "expr", E: &amlExpr{K: "call", Name: "AAAK", Args: []amlExpr{z, z, z}}},
+			}},
+		}},
+		{K: "method", Name: amlSeg("AACC"), Argc: 2},
+	}
+	exploreDump(prog)
 }
